@@ -4,7 +4,7 @@ from pipeline import *
 
 # (module, property, fraction of its quick plan used in the quick tier, used in quick tier?)
 SUBS = [("c01", "C01", 0.05, True), ("c02", "C02", 0.08, True), ("c14", "C14", 0.15, True), ("c09", "C09", 0.06, True), ("c05", "C05", 0.05, True),
-        ("c17", "C17", 0.05, False), ("c03", "C03", 0.08, False), ("c16", "C16", 0.015, False)]
+        ("c17", "C17", 0.05, False), ("c03", "C03", 0.08, False)]      # (the reductions corpus is many small TUs: it runs in the macro sweeps only)
 
 MACS = ["none", "FASTOR_USE_HADD", "FASTOR_MATMUL_OUTER_BLOCK_SIZE=1", "FASTOR_MATMUL_OUTER_BLOCK_SIZE=3", "FASTOR_MATMUL_INNER_BLOCK_SIZE=1",
         "FASTOR_MATMUL_INNER_BLOCK_SIZE=3", "FASTOR_MATMUL_INNER_BLOCK_SIZE=5", "FASTOR_TRANS_OUTER_BLOCK_SIZE=2", "FASTOR_TRANS_INNER_BLOCK_SIZE=4",
@@ -86,7 +86,7 @@ def thorough_array():
     for s in ("14", "17"):
         for o in opts:
             arr.append(rec("avx2", s, o))
-    for m in MACS[1:]:
+    for i, m in enumerate(MACS[1:]):          # every macro once in the array (alternating wide ISA); the sweeps run it on both
         arr.append(rec("avx2", "14", "O2", "0", m))
         arr.append(rec("avx512", "14", "O2", "0", m))
     seen, out = set(), []
@@ -121,7 +121,7 @@ class C06(Check):
         for mod, pid, frac, inquick in SUBS:
             if ctx.tier == "quick" and not inquick:
                 continue
-            jobs.append((pid, mod, pid, frac if ctx.tier == "quick" else min(1.0, frac * 1.5), cfgs, None, None))
+            jobs.append((pid, mod, pid, frac if ctx.tier == "quick" else frac, cfgs, None, None))     # thorough: the same cross-section under many more configurations
         sweep_tab = []
         only = os.environ.get("VERIF_C06_ONLY")            # experimentation: run one job only (e.g. "sweep-C16")
         for pid, mod, macs, filt, fq, ft in SWEEPS:
